@@ -15,6 +15,10 @@ def run(ctx: Ctx) -> None:
     from ..tables import t6_transforms
     t6_transforms.run_regrid(ctx, bspline=True, dense=False)  # refining a free-form deformation's image grid keeps the function
     ctx.floor("T6x.regrid", 2)
+    # the spline models serve the spline of their *current* coefficients (predicted / linked / replaced), shared with C09
+    t6_transforms.run_histories(ctx, max_len=2, only_classes=("FreeFormDeformation", "StationaryVelocityFreeFormDeformation"),
+                                only_kinds=("callable",))
+    ctx.floor("T6x.call-fresh", 2)
     from ..tables import t5_derivs
     with ctx.only("T5.bspline"):  # derivative modes return the analytic spline derivatives (anisotropic spacing, strides, order 1 and 2)
         t5_derivs.run_derivatives(ctx)
